@@ -3,6 +3,7 @@
 package xmpp
 
 import (
+	"errors"
 	"fmt"
 	"strings"
 	"testing"
@@ -18,13 +19,13 @@ import (
 // one new working session; permanent errors end the retry loop; Stop makes Run return.
 
 type c13cfg struct {
-	sm      bool     // stream management with resumption
-	faults  []string // per loss: drop | drop-after-stanza | graceful-close | stream-error-conflict | stream-error-other
-	refused []int    // per loss: dials refused before the server accepts again
-	attempt []string // per loss: ok | transient (close after features once, then ok) | permanent (auth failure)
-	stop    bool     // Stop at the end
-	slowPost bool    // the PostConnect callback takes 5 s (e.g. it waits for a roster answer)
-	stopWhileRefused bool // after the last loss the server refuses every dial; Stop is called during the retry loop
+	sm               bool     // stream management with resumption
+	faults           []string // per loss: drop | drop-after-stanza | graceful-close | stream-error-conflict | stream-error-other
+	refused          []int    // per loss: dials refused before the server accepts again
+	attempt          []string // per loss: ok | transient (close after features once, then ok) | permanent (auth failure)
+	stop             bool     // Stop at the end
+	slowPost         bool     // the PostConnect callback takes 5 s (e.g. it waits for a roster answer)
+	stopWhileRefused bool     // after the last loss the server refuses every dial; Stop is called during the retry loop
 }
 
 func (c c13cfg) name() string {
@@ -68,7 +69,7 @@ func c13body(cfg c13cfg) func() {
 		}
 		dials := 0
 		var dialTimes []time.Duration
-		accepted := map[int]string{} // conn index -> plan
+		accepted := map[int]string{}                                                     // conn index -> plan
 		listen(w, "example.org:5222", func(k int) *negCfg { return nil }, &recs, &conns) // replaced below
 		w.Listeners["example.org:5222"].Accept = func(k int, c *vnet.Conn) (func(), error) {
 			plan := "ok"
@@ -109,6 +110,12 @@ func c13body(cfg c13cfg) func() {
 		conf := &Config{TransportConfiguration: TransportConfiguration{Address: "example.org:5222", Domain: "example.org"},
 			Jid: "user@example.org/r", Credential: Password("secret"), Insecure: true, StreamManagementEnable: cfg.sm, KeepaliveInterval: time.Hour}
 		conf.streamManagementResume = cfg.sm
+		for _, f := range cfg.faults {
+			if f == "write-side-dead" {
+				// the keepalive is what notices this fault: it has to tick within the 30 minutes given to a loss
+				conf.KeepaliveInterval = 10 * time.Minute
+			}
+		}
 		var errs int
 		cl, err := NewClient(conf, router, func(error) { errs++ })
 		if err != nil {
@@ -208,6 +215,12 @@ func c13body(cfg c13cfg) func() {
 			case "drop-after-stanza":
 				sc.send("<message from='peer@example.org' id='last'><body>bye</body></message>")
 				sc.close()
+			case "write-side-dead":
+				// a half-dead peer: nothing comes in any more and every write of the client fails. Only the
+				// keepalive can notice; it closes the connection, which ends the receive loop
+				sc.raw.Peer().WriteFault = func(c *vnet.Conn, p []byte) (int, error) {
+					return 0, errors.New("write: broken pipe")
+				}
 			case "graceful-close":
 				sc.send("</stream:stream>")
 				vrt.WaitIdle()
@@ -317,7 +330,7 @@ func c13verdict(e *vrt.Exec) {
 }
 
 func TestVerifC13(t *testing.T) {
-	faults := []string{"drop", "drop-after-stanza", "graceful-close", "stream-error-other", "stream-error-conflict"}
+	faults := []string{"drop", "drop-after-stanza", "graceful-close", "write-side-dead", "stream-error-other", "stream-error-conflict"}
 	var scs []hx.Scenario
 	add := func(c c13cfg) {
 		scs = append(scs, hx.Scenario{Name: c.name(), Opt: vrt.Options{Bound: thoroughBound(1), Horizon: 200000}, Body: c13body(c), Verdict: c13verdict})
@@ -331,11 +344,11 @@ func TestVerifC13(t *testing.T) {
 			}
 		}
 		// two (thorough: three) losses in a row
-		for _, f1 := range faults[:4] {
-			for _, f2 := range faults[:4] {
+		for _, f1 := range faults[:5] {
+			for _, f2 := range faults[:5] {
 				add(c13cfg{sm: sm, faults: []string{f1, f2}, refused: []int{0, 1}, attempt: []string{"ok", "ok"}, stop: true})
 				if hx.Thorough() {
-					for _, f3 := range faults[:4] {
+					for _, f3 := range faults[:5] {
 						add(c13cfg{sm: sm, faults: []string{f1, f2, f3}, refused: []int{1, 0, 2}, attempt: []string{"ok", "transient", "ok"}, stop: true})
 					}
 				}
